@@ -26,6 +26,8 @@ def explore(res, rng, n):
         # ---- synthesis with whole periods: T seconds, frequencies m / T below Nyquist
         T = rng.choice([1.0, 2.0, 4.0])
         fs = rng.choice([16.0, 32.0, 50.0, 64.0])
+        if i == 1:
+            T, fs = 80.0, 128.0          # a long record (10240 samples)
         nn = round(fs * T)
         df = 1.0 / T * rng.choice([1, 1, 2])
         m0 = rng.choice([1, 2, 3])
